@@ -236,7 +236,7 @@ CALL_LIKE = {"param", "param_kw", "method_param", "call_id", "call_kw", "call_se
 
 def sig_class(desc):
     """(class, detail) of a minimised missed path.  Classes are the root causes identified by triage (see
-    known_findings.d/C10.json); detail names the construct.  Minimal chains of three or more links that match no
+    known_findings.json); detail names the construct.  Minimal chains of three or more links that match no
     family fall into the class 'composition' (their single links and pairs all pass)."""
     ctx, seq = desc
     ctx = set(ctx)
